@@ -100,6 +100,7 @@ def check(ix, rep):
             rep.analysed(_de)
             _ne += _te.check_entry_verbatim(ix, rep, _de, _m.kind)
     rep.floor('data-entry stores', _ne, 1)
+    rep.floor('specification wrappers handing the data on', _te.check_wrapper_verbatim(ix, rep), 2)
     # pastify() of a past formula is the identity only if the bounds it rebuilds are the written ones: each bound converted with its own unit
     # (else the other bound's, else the default) by the normalisers the pastifier and the horizon use
     from sa.rules import units as _u2, unitflow as _uf2
